@@ -1615,7 +1615,12 @@ func (g *FuncGen) runGhostAt(callee string, ord int, env *Env, results []Val) {
 		if g.ghostState != nil {
 			gst = g.ghostState
 		}
-		genv := &Env{g: g, vars: map[string]Val{}, cur: gst, old: env.old, pkg: g.pkg}
+		// old(...) always means the state just before the call, whether or not the callee has a contract
+		oldSt := env.old
+		if g.ghostState != nil {
+			oldSt = g.ghostState
+		}
+		genv := &Env{g: g, vars: map[string]Val{}, cur: gst, old: oldSt, pkg: g.pkg}
 		for k, v := range g.params {
 			genv.vars[k] = v
 		}
